@@ -6,7 +6,7 @@ set_option linter.unusedSectionVars false
 set_option linter.unusedVariables false
 namespace Frappy.Lemmas.C01
 open FloatOps DType Frappy.Datatypes Frappy.Spec.C01
-open PVal (toFloat? seqItems? prevItems prevFields dictGet dictSet)
+open PVal (toFloat? seqItems? prevItems prevFields dictGet dictSet isNone given notOffered)
 
 variable {F : Type} [FloatOps F] [LawfulFloatOps F]
 
@@ -189,6 +189,44 @@ theorem foldFields_given {f : String → PVal F → Option (Res F)} {M : String 
           · simp only [isNone, Bool.not_false, Bool.and_true, decide_eq_true_eq, hk, ↓reduceIte]
             rw [dictGet_dictSet_ne _ _ hk] at this
             exact this
+
+theorem dictGet_mem {α : Type} {d : List (String × α)} {k : String} {v : α} (h : dictGet d k = some v) :
+    (k, v) ∈ d := by
+  induction d with
+  | nil => simp [dictGet] at h
+  | cons hd tl ih =>
+    obtain ⟨k0, v0⟩ := hd
+    simp only [dictGet] at h
+    split at h
+    · rename_i hk; injection h with h; subst hk; subst h; exact List.mem_cons_self
+    · exact List.mem_cons_of_mem _ (ih h)
+
+theorem givenKeys_cons_subset (hd : String × PVal F) (tl : List (String × PVal F)) {k : String}
+    (h : k ∈ givenKeys tl) : k ∈ givenKeys (hd :: tl) := by
+  obtain ⟨k0, v0⟩ := hd
+  cases v0 <;> simp [givenKeys, h]
+
+theorem given_some_givenKeys : ∀ (l : List (String × PVal F)) (k : String) (v : PVal F),
+    given l k = some v → k ∈ givenKeys l := by
+  intro l
+  induction l with
+  | nil => intro k v h; simp [given] at h
+  | cons hd tl ih =>
+    intro k v h
+    rw [given_cons] at h
+    cases hg : given tl k with
+    | some w => exact givenKeys_cons_subset hd tl (ih k w hg)
+    | none =>
+      rw [hg] at h
+      simp only at h
+      obtain ⟨k0, v0⟩ := hd
+      split at h
+      · rename_i hc
+        simp only [Bool.and_eq_true, decide_eq_true_eq, Bool.not_eq_true'] at hc
+        obtain ⟨hk, hn⟩ := hc
+        subst hk
+        cases v0 <;> simp [givenKeys, isNone] at hn ⊢
+      · cases h
 
 theorem mem_givenKeys {items : List (String × PVal F)} {kv : String × PVal F} (h : kv ∈ items)
     (hn : isNone kv.2 = false) : kv.1 ∈ givenKeys items := by
